@@ -112,6 +112,35 @@ check(
     'DESIGN 3 (C14), 2.2',
 )
 
+check(
+    'C03',
+    'blocksim',
+    'exploration',
+    'Real SDC/MLSDC/PFASST runs of controller_nonMPI over the property\'s configuration space (all residual types, initial guesses, 1-3 levels, '
+    'P 1..8, predictors, couplings, tolerances reached at iteration 0/1/.../never) with soft faults in iterates producing non-monotone residual '
+    'histories, plus injected verdict/force patterns. At every post_iteration/post_step a shadow problem instance recomputes the collocation '
+    'defect from the node values held (Q from qmat) and compares with the reported residual within a derived rounding bound; stopping soundness, '
+    'iteration budget and logged values are judged on the recorded history.',
+    'Sampling. Known finding F08 (finished at iteration 0 without a sweep) is reported as KNOWN-FINDING. Soft faults are never placed between '
+    'the computation of a residual and the decision taken on it. imex_1st_order_mass not driven. MPI flavour: C08.',
+    'deterministic simulation: seeded soft-fault and convergence histories on the real controller, invariant checked at every callback against an independent re-evaluation',
+    'DESIGN 3 (C03)',
+)
+
+check(
+    'C01',
+    'blocksim',
+    'exploration',
+    'Whole multi-party runs (P steps x L levels, every predictor, both couplings, 1-3 sweeps, node families/quadrature types, implicit/explicit/'
+    'IMEX preconditioners, node and space coarsening) of the real controller_nonMPI on linear and IMEX-split problems, with soft faults in '
+    'iterates as transient-state perturbations; refinement against a sequential dense single-level collocation solver started from the actual '
+    'end value of the previous step: |uend - uend_ref| <= kappa_end*(actual defect) + derived rounding.',
+    'Sampling; linear/affine problems only (A, b(t) probed from a shadow instance). The bound is a consequence of linear algebra for any state, '
+    'so it detects end values/defects inconsistent with the node values, not slow convergence. multi_implicit not driven. MPI flavour: C08.',
+    'deterministic simulation: seeded soft-fault injection into multi-level multi-step runs, refinement check against an executable reference model',
+    'DESIGN 3 (C01)',
+)
+
 
 def build():
     claimed = sorted(CHECKS)
